@@ -20,6 +20,96 @@ def _has_huge_int(v, depth=0):
     return False
 
 
+def probe_unusual_declared_keys(ctx):
+    """"unusual dict keys and opaque objects ... nested anywhere": a schema that DECLARES such a key and a value that
+    has it, with errors at and below the key (the key then is part of the error's path): validate returns, every
+    error renders to a non-empty message (the path is part of the message), validate_or_fail / format_result carry
+    one line per error.  Keys: ints beyond the int -> str digit limit (F40), objects that cannot be deep-copied
+    (memoryview, lock: F35), objects hashing by identity, NaN, nested tuples, enum members."""
+    import decimal
+    import threading
+    from d42 import schema, validate, validate_or_fail
+    from d42.validation import ValidationException, Formatter, format_result
+
+    class K:
+        pass
+
+    keys = [("10**5000", 10 ** 5000), ("-(7**6000)", -(7 ** 6000)), ("memoryview(b'k')", memoryview(b"k")),
+            ("threading.Lock()", threading.Lock()), ("object()", object()), ("K()", K()), ("float('nan')", float("nan")),
+            ("Decimal('NaN')", decimal.Decimal("NaN")), ("(1, (2, 10**5000))", (1, (2, 10 ** 5000))), ("frozenset({1})", frozenset({1})),
+            ("b'k'", b"k"), ("1.5", 1.5), ("None", None), ("True", True), ("_Color.RED", gen._Color.RED), ("''", ""), ("(...,)", (...,))]
+    def _same_repr(k):
+        """a distinct, unequal key object whose repr() is that of k (None if there is none)"""
+        if isinstance(k, float) and k != k:
+            return float("nan")
+        if isinstance(k, decimal.Decimal) and k != k:
+            return decimal.Decimal("NaN")
+        if type(k) is K or type(k) is object:
+            return None          # their repr holds the address
+        return None
+
+    class R:
+        def __repr__(self):
+            return "R()"
+    keys.append(("R()  [all instances print alike]", R()))
+    same = _same_repr
+    _same_repr = lambda k: R() if type(k) is R else same(k)      # noqa: E731
+
+    fmt = Formatter()
+    n = 0
+    for ksrc, k in keys:
+        shapes = [
+            ("schema.dict({k: schema.dict({'a': schema.int, 'b': schema.str})})", lambda: schema.dict({k: schema.dict({"a": schema.int, "b": schema.str})}),
+             [{k: {"a": "x"}}, {k: {"a": 1, "b": "s", "c": 2}}, {k: 5}, {}], [2, 1, 1, 1]),
+            ("schema.dict({k: schema.list([schema.int, schema.str])})", lambda: schema.dict({k: schema.list([schema.int, schema.str])}),
+             [{k: [1]}, {k: ["x", 1, 2]}, {k: [None, None]}], [1, 3, 2]),
+            ("schema.list(schema.dict({k: schema.dict({'a': schema.int})}))", lambda: schema.list(schema.dict({k: schema.dict({"a": schema.int})})),
+             [[{k: {"a": None}}, {k: {}}], [{k: {"a": 1}}, {}]], [2, 1]),
+            ("schema.dict({'o': schema.dict({k: schema.int, 'z': schema.int})})", lambda: schema.dict({"o": schema.dict({k: schema.int, "z": schema.int})}),
+             [{"o": {k: "x"}}, {"o": {"z": 1}}, {"o": {k: 1, "z": 1, "y": 1}}], [2, 1, 1]),
+            ("schema.dict({'a': schema.int})", lambda: schema.dict({"a": schema.int}), [{"a": 1, k: 2}, {k: {k: 1}}], [1, 2]),
+            ("schema.dict({k: schema.dict({k: schema.dict({k: schema.none})})})", lambda: schema.dict({k: schema.dict({k: schema.dict({k: schema.none})})}),
+             [{k: {k: {k: 0}}}, {k: {k: {}}}], [1, 1]),
+            # two errors that render to the SAME line (two distinct keys with one repr) are still two errors / two lines
+            ("schema.dict({'a': schema.int})  [second key: a distinct object with the same repr]", lambda: schema.dict({"a": schema.int}),
+             [{"a": 1, k: 2, _same_repr(k): 3}] if _same_repr(k) is not None else [], [2]),
+            ("schema.any(schema.dict({k: schema.list(schema.int)}), schema.none)", lambda: schema.any(schema.dict({k: schema.list(schema.int)}), schema.none),
+             [{k: [1, "x"]}], [1]),
+        ]
+        for ssrc, mk, values, counts in shapes:
+            s = mk()
+            for v, want in zip(values, counts):
+                n += 1
+                rp = {"kind": "input", "schema": ssrc, "where": f"k = {ksrc}", "value": common.srepr(v)[:200]}
+                try:
+                    errors = validate(s, v).get_errors()
+                except Exception as e:  # noqa
+                    rp.update(observed=f"validate raised {type(e).__name__}: {str(e)[:120]}", expected="a ValidationResult")
+                    ctx.violation(f"validate raised {type(e).__name__} (a dict key declared by the schema: {ksrc})", rp)
+                    continue
+                if len(errors) != want:
+                    rp.update(observed=f"{len(errors)} errors", expected=f"{want} errors")
+                    ctx.violation("number of errors for a value with an unusual declared key", rp)
+                    continue
+                try:
+                    msgs = [e.format(fmt) for e in errors]
+                    bad = [m for m in msgs if not isinstance(m, str) or not m.strip()]
+                    fr = format_result(validate(s, v))
+                    try:
+                        validate_or_fail(s, v)
+                        text = None
+                    except ValidationException as e:
+                        text = str(e)
+                    ok = not bad and len(fr) == len(msgs) + 1 and text is not None and text.count("\n - ") == len(msgs)
+                    why = f"messages={len(msgs)} empty={len(bad)} format_result={len(fr)} lines"
+                except Exception as e:  # noqa
+                    ok, why = False, f"rendering raised {type(e).__name__}: {str(e)[:120]}"
+                if not ok:
+                    rp.update(observed=why, expected="one non-empty line per error from format / format_result / validate_or_fail")
+                    ctx.violation(f"errors located at or below an unusual declared key do not render ({ksrc})", rp)
+    return n
+
+
 PROPS_FILE = "props/C08.v"
 MODEL_FILES = ["theories/Validate.v"]
 
@@ -103,6 +193,7 @@ def run(ctx):
             rp.update(observed=f"validate_or_fail -> {vof[0]}; format_result -> {len(fr)} lines; errors={len(c.errors)}",
                       expected="True iff no errors, else ValidationException with one bullet per error")
             ctx.violation("validate_or_fail / format_result disagree with the error list", rp)
+    key_probes = probe_unusual_declared_keys(ctx)
     modelled = [c for c in cases if c.term is not None]
     bad = common.eval_cases(ctx.workdir, "c08", [c.term for c in modelled], "vcase", "total_case_ok")
     dist, kinds = vsuite.distribution(cases)
@@ -110,6 +201,7 @@ def run(ctx):
     not_wf = common.eval_cases(ctx.workdir, "c08wf", [c.term for c in modelled], "vcase", "wf_case_ok")
     dist["hypothesis_wf_holds"] = len(modelled) - len(not_wf)
     dist["hypothesis_wf_fails"] = len(not_wf)
+    dist["unusual_declared_key_probes"] = key_probes
     ctx.coverage.update(
         evaluations=len(cases),
         distinct_nontrivial=vsuite.distinct_nontrivial(cases),
